@@ -70,6 +70,7 @@ type Obligation struct {
 	Time    float64
 	Model   map[string]string
 	AltModels []map[string]string
+	AltModelFn func() []map[string]string
 	Output  string
 	File    string
 	Info    map[string]*Term // values worth printing from a model
